@@ -7,6 +7,7 @@ package engine
 import (
 	"context"
 	"fmt"
+	"math"
 	"os"
 	"sort"
 	"strings"
@@ -417,6 +418,13 @@ func selectRows(sh *shard, q *sQuery) (map[string][]sDumpRow, []string, error) {
 // returns a violation kind and detail, or "" if equal.  Order inside a series
 // must be strictly monotone in the requested direction.
 func compareDump(got, want map[string][]sDumpRow, desc bool, model *sModel, mst int) (kind, detail string) {
+	kind, detail, _ = compareDumpX(got, want, desc, model, mst)
+	return kind, detail
+}
+
+// compareDumpX: compareDump plus matcher attributes that describe the difference
+// ("diff" = negzero_read_as_zero: a float written as -0.0 came back as +0.0).
+func compareDumpX(got, want map[string][]sDumpRow, desc bool, model *sModel, mst int) (kind, detail string, xa map[string]string) {
 	var keys []string
 	seen := map[string]bool{}
 	for k := range want {
@@ -434,10 +442,10 @@ func compareDump(got, want map[string][]sDumpRow, desc bool, model *sModel, mst 
 		// order / duplicates
 		for i := 1; i < len(g); i++ {
 			if g[i].Time == g[i-1].Time {
-				return "duplicate_timestamp", fmt.Sprintf("series %s returns timestamp t=%d twice: %s and %s", s, (g[i].Time-sBaseTime)/sStep, fmtRow(g[i-1]), fmtRow(g[i]))
+				return "duplicate_timestamp", fmt.Sprintf("series %s returns timestamp t=%d twice: %s and %s", s, sSlot(g[i].Time), fmtRow(g[i-1]), fmtRow(g[i])), nil
 			}
 			if (g[i].Time < g[i-1].Time) != desc {
-				return "wrong_order", fmt.Sprintf("series %s rows not in %s time order: %s then %s", s, map[bool]string{false: "ascending", true: "descending"}[desc], fmtRow(g[i-1]), fmtRow(g[i]))
+				return "wrong_order", fmt.Sprintf("series %s rows not in %s time order: %s then %s", s, map[bool]string{false: "ascending", true: "descending"}[desc], fmtRow(g[i-1]), fmtRow(g[i])), nil
 			}
 		}
 		gs := append([]sDumpRow(nil), g...)
@@ -446,26 +454,29 @@ func compareDump(got, want map[string][]sDumpRow, desc bool, model *sModel, mst 
 		for i < len(gs) || j < len(w) {
 			switch {
 			case j >= len(w) || (i < len(gs) && gs[i].Time < w[j].Time):
-				return "extra_row", fmt.Sprintf("row %s was returned but the acknowledged writes contain no such row", fmtRow(gs[i]))
+				return "extra_row", fmt.Sprintf("row %s was returned but the acknowledged writes contain no such row", fmtRow(gs[i])), nil
 			case i >= len(gs) || gs[i].Time > w[j].Time:
-				return "missing_row", fmt.Sprintf("row %s is in the acknowledged writes but was not returned", fmtRow(w[j]))
+				return "missing_row", fmt.Sprintf("row %s is in the acknowledged writes but was not returned", fmtRow(w[j])), nil
 			default:
 				for f, wv := range w[j].Fields {
 					gv, ok := gs[i].Fields[f]
 					if !ok {
-						return "missing_field", fmt.Sprintf("row %s lacks field %s, expected %s", fmtRow(gs[i]), f, fmtRow(w[j]))
+						return "missing_field", fmt.Sprintf("row %s lacks field %s, expected %s", fmtRow(gs[i]), f, fmtRow(w[j])), nil
 					}
 					if !gv.equal(wv) {
 						kind := "wrong_value"
 						if model != nil {
 							kind = model.classifyM(mst, s, gs[i].Time, f, gv)
 						}
-						return kind, fmt.Sprintf("field %s of row %s (value produced by write %d): expected %s", f, fmtRow(gs[i]), attribute(gv), wv)
+						if wv.Typ == influxql.Float && wv.F == 0 && gv.F == 0 && math.Signbit(wv.F) && !math.Signbit(gv.F) {
+							xa = map[string]string{"diff": "negzero_read_as_zero"}
+						}
+						return kind, fmt.Sprintf("field %s of row %s (value produced by write %d): expected %s", f, fmtRow(gs[i]), attribute(gv), wv), xa
 					}
 				}
 				for f := range gs[i].Fields {
 					if _, ok := w[j].Fields[f]; !ok {
-						return "extra_field", fmt.Sprintf("row %s has field %s which was never written for it; expected %s", fmtRow(gs[i]), f, fmtRow(w[j]))
+						return "extra_field", fmt.Sprintf("row %s has field %s which was never written for it; expected %s", fmtRow(gs[i]), f, fmtRow(w[j])), nil
 					}
 				}
 				i++
@@ -473,5 +484,5 @@ func compareDump(got, want map[string][]sDumpRow, desc bool, model *sModel, mst 
 			}
 		}
 	}
-	return "", ""
+	return "", "", nil
 }
